@@ -4,7 +4,7 @@ import hashlib
 from . import common, cons, hand, hist, place, universe, xt
 
 PID = "C05"
-FORMS = ["py", "nd", "ndF", "cap", "xobj-other"]
+FORMS = ["py", "nd", "ndF", "ndD", "ndFD", "ndTD", "cap", "xobj-other"]
 
 
 def places_for(tier):
@@ -74,12 +74,22 @@ def judge(o, vmode, res, seen):
     b = place.whole(buf)
     off = int(o.obj._offset)
     parts = []
+    issues = []
     try:
-        val, size = xt.decode(t, b, off, parts)
+        val, size = xt.decode(t, b, off, parts, issues=issues)
     except xt.Bad as e:
         res.outcomes["bad:" + e.clause] += 1
         return common.violation("C05." + e.clause, "layout:" + e.clause, f, cid, str(e))
     res.oracles["decode"] += 1
+    if issues:
+        # one violation per distinct clause (a known deviation must not hide a different one on the same object)
+        seen_cl = {}
+        for cl, msg in issues:
+            seen_cl.setdefault(cl, msg)
+        vs = [common.violation("C05." + cl, "layout:" + cl, f, cid, msg) for cl, msg in seen_cl.items()]
+        for cl in seen_cl:
+            res.outcomes["bad:" + cl] += 1
+        return vs
     if not xt.veq(val, o.expect):
         res.outcomes["decoded-value-mismatch"] += 1
         return common.violation("C05.value", "decoded-value-mismatch", f, cid, "first difference at %r: %s" % xt.vdiff(val, o.expect))
@@ -125,7 +135,7 @@ def run_shard(shard, tier, seed):
         res.events["construct"] += 1
         viol = judge(o, vmode, res, seen)
         if viol:
-            res.violations.append(viol)
+            res.violations.extend(viol if isinstance(viol, list) else [viol])
         elif o.error is None and len(res.samples) < 1 and xt.is_dyn(t):
             res.sample(dict(type=xt.show(t), value_mode=vmode, form=form, placement=pname, bytes=bytes(o.obj._buffer.to_bytearray(o.obj._offset, hand.size_of(o.obj))).hex()[:160]))
     res.states = res.nontrivial = len(seen)
@@ -140,4 +150,4 @@ def replay(case):
     v = xt.gen(t, case["vmode"])
     o = cons.execute(t, v, case["form"], case["place"], 0)
     viol = judge(o, case["vmode"], common.ShardResult(), set())
-    return [viol] if viol else []
+    return (viol if isinstance(viol, list) else [viol]) if viol else []
